@@ -124,7 +124,7 @@ theorem tie_should_ignore :
     `handleMutating`). -/
 theorem tie_mutating_handle :
     Generated.C13.mutatingFirstGuard = "shouldIgnoreIfNotPod" ∧
-    Generated.C13.mutatingDispatch = [("Create", "handleCreate"), ("Update", "handleUpdate"), ("default", "\"\",Allowed")] ∧
+    Generated.C13.mutatingDispatch = [("Create", "handleCreate"), ("Update", "handleUpdate"), ("default", "Allowed")] ∧
     Generated.C13.mutatingNoPatchUnlessMutated = true ∧
     Generated.C13.mutatingPatchFrom = "PatchResponseFromRaw" := by decide
 
@@ -136,6 +136,11 @@ theorem tie_mutated_flags :
     Generated.C13.handleUpdateSteps = [] ∧
     Generated.C13.colocationCreateOnly = true ∧
     Generated.C13.colocationOrsResourceFlag = true := by decide
+
+/-- extendedResourceSpecMutatingPod is switched off by the feature gate DisableExtendedResourceSpec and acts on
+    CREATE and UPDATE requests (handleUpdate never calls it): the model's `handleCreate`. -/
+theorem tie_ext_step_guards :
+    Generated.C13.extStepGuards = ["DefaultFeatureGate,DisableExtendedResourceSpec,Enabled", "Create,Operation,Update"] := by decide
 
 /-- validatingPodFn: in front of the validators exactly two guards admit a request (not a pod / a sub-resource; DELETE
     without an old object) and two reject it (object / old object does not decode); then the validators in this order
